@@ -1097,6 +1097,8 @@ def part_cross_process_hash(R, pools):
 # ------------------------------------------------------------------ part E: registry pairs
 PROBE_NAMES = ["meter", "inch", "kiloinch", "microfortnight", "smoot", "kilosmoot", "zorkmeter", "mymeter", "nb0", "degC",
                "foo", "bar", "kilofoo", "furlong", "cm", "µs", "dimensionless", "no_such_unit", "pfxmeter", "spam"]
+PROBE_CI = ["pa", "Pa", "PA", "hz", "HZ", "hertz", "HERTZ", "newton", "NEWTON", "kpa", "mhz", "bq", "degc", "meter", "METER",
+            "foo", "FOO", "inch", "INCH", "Inch", "smoot", "SMOOT", "mile", "furlong", "FURLONG"]
 PROBE_PAIRS = [("inch", "cm"), ("mile", "meter"), ("foo", "meter"), ("kilofoo", "inch"), ("degC", "kelvin"), ("nb0", "nb0"),
                ("eV", "joule"), ("hour", "second"), ("mymeter", "inch"), ("smoot", "meter"), ("nm", "terahertz"),
                ("gallon", "liter"), ("bar", "pascal"), ("spam", "meter")]
@@ -1119,6 +1121,11 @@ def probe(reg):
             out["dim:" + n] = sorted((k, str(F(v))) for k, v in reg.get_dimensionality(n)._d.items())
         except Exception as e:
             out["dim:" + n] = type(e).__name__
+    for n in PROBE_CI:                # case-insensitive lookups read the _units_casei index
+        try:
+            out["parse-ci:" + n] = sorted((k, str(F(v))) for k, v in reg.parse_units(n, case_sensitive=False)._units._d.items())
+        except Exception as e:
+            out["parse-ci:" + n] = type(e).__name__
     for a, b in PROBE_PAIRS:
         try:
             m = reg.Quantity(F(3) if reg.non_int_type is F else 3.0, a).to(b).magnitude
@@ -1166,6 +1173,14 @@ def registry_ops(rng, n):
         ("load definitions", lambda r: r.load_definitions(["furlong2 = 2 * furlong", "kilofoo_x = 5 * meter"])),
         ("context redefine", lambda r: _ctx_redefine(r, pint)),
         ("define group", lambda r: r.get_group("c18group").add_units("inch", "mile")),
+        # names / symbols / aliases that differ only by CASE from a spelling that already exists
+        ("define PA (case variant of Pa)", lambda r: r.define("PA = 3 * pascal")),
+        ("define HZ with alias HERTZ", lambda r: r.define("HZ = 2 * hertz = HERTZ")),
+        ("define Newton (case variant)", lambda r: r.define("Newton = 5 * newton")),
+        ("define INCH with symbol Inch", lambda r: r.define("INCH = 7 * inch = Inch")),
+        ("alias METER", lambda r: r.define("@alias meter = METER")),
+        ("define FOO after foo", lambda r: (r.define("foo = 3 * meter") if "foo" not in r._units else None, r.define("FOO = 9 * meter"))),
+        ("define Furlong", lambda r: r.define("Furlong = 11 * furlong = FURLONG")),
     ]
     for _ in range(n):
         ops.append(rng.choice(pool))
@@ -1186,6 +1201,59 @@ def _ctx_redefine(r, pint):
     r.enable_contexts("c18redef")
 
 
+def mutable_index(root, limit=400000):
+    """id -> (path, object) of every builtin mutable container reachable from an object's attributes.
+    Walks dicts, lists, tuples, sets, ChainMaps, deques, bound methods' __self__ and instances (__dict__ / __slots__);
+    classes, functions, modules and weak references are not entered (deepcopy treats them as atomic too)."""
+    import collections
+    import types
+    import weakref
+    atomic = (type, types.FunctionType, types.BuiltinFunctionType, types.ModuleType, weakref.ref, str, bytes, int, float,
+              complex, bool, type(None), F, Decimal, logging.Logger, property, staticmethod, classmethod)
+    mutable = (dict, list, set, bytearray, collections.deque, collections.ChainMap)
+    from pint.util import UnitsContainer
+
+    def frozen(o):      # immutable by contract: sharing them between a registry and its copy is harmless
+        p = getattr(type(o), "__dataclass_params__", None)
+        return (p is not None and p.frozen) or isinstance(o, UnitsContainer)
+    seen, out, stack = set(), {}, [("", root)]
+    while stack and len(seen) < limit:
+        path, o = stack.pop()
+        if isinstance(o, atomic) or id(o) in seen or frozen(o):
+            continue
+        seen.add(id(o))
+        if isinstance(o, mutable) and o is not root:
+            out[id(o)] = (path, o)
+        if isinstance(o, collections.ChainMap):
+            stack += [(f"{path}.maps[{i}]", m) for i, m in enumerate(o.maps)]
+        elif isinstance(o, dict):
+            for k, v in o.items():
+                stack.append((f"{path}[{k!r}]"[:120] if isinstance(k, (str, int)) else f"{path}[<{type(k).__name__}>]", v))
+                if not isinstance(k, (str, int)):
+                    stack.append((f"{path}<key {type(k).__name__}>", k))
+        elif isinstance(o, (list, tuple, set, frozenset, collections.deque)):
+            stack += [(f"{path}[{i}]", v) for i, v in enumerate(o)]
+        elif isinstance(o, types.MethodType):
+            stack.append((path + ".__self__", o.__self__))
+        else:
+            d = getattr(o, "__dict__", None)
+            if isinstance(d, dict):
+                stack += [((path + "." + k).lstrip("."), v) for k, v in d.items()]
+            for cls in type(o).__mro__:
+                for sl in getattr(cls, "__slots__", ()) if isinstance(getattr(cls, "__slots__", ()), (tuple, list)) else ():
+                    try:
+                        stack.append(((path + "." + sl).lstrip("."), getattr(o, sl)))
+                    except AttributeError:
+                        pass
+    return out
+
+
+def shared_mutables(src, cp):
+    """mutable containers that are reachable from BOTH registries: [(path in source, path in copy, type)]"""
+    a, b = mutable_index(src), mutable_index(cp)
+    return sorted((a[i][0], b[i][0], type(a[i][1]).__name__) for i in a.keys() & b.keys())
+
+
 def part_registry_pairs(R):
     import pint
     rng, ck = R.rng, R.ck
@@ -1204,12 +1272,21 @@ def part_registry_pairs(R):
                 except Exception:
                     pass
             return r
+        if kind == "case-insensitive":
+            return pint.UnitRegistry(case_sensitive=False, cache_folder=None)
+        if kind == "copy-of-copy":
+            return copy.deepcopy(pint.UnitRegistry(cache_folder=None))
+        if kind == "context-active":        # _units is a ChainMap while a redefining context is enabled
+            r = pint.UnitRegistry(cache_folder=None)
+            _ctx_redefine(r, pint)
+            return r
         if kind == "application":
             return pint.application_registry.get()
         if kind == "lazy":
             return pint.LazyRegistry()
         raise ValueError(kind)
-    kinds = ["fresh", "used", "application", "lazy", "fresh-fraction", "used"]
+    kinds = ["fresh", "used", "case-insensitive", "application", "context-active", "lazy", "copy-of-copy", "fresh-fraction", "used",
+             "case-insensitive"]
     for i in range(n_pairs):
         kind = kinds[i % len(kinds)]
         src = make_source(kind)
@@ -1218,6 +1295,10 @@ def part_registry_pairs(R):
         except Exception as e:
             R.oracle(False, f"deepcopy-registry:{kind}:raises", f"deepcopy of a {kind} registry raises {e!r}", {"kind": kind})
             continue
+        shared = shared_mutables(src, cp)
+        R.oracle(not shared, "deepcopy-independent:registry:shared-mutable:" + (shared[0][0].split(".")[0].split("[")[0] if shared else ""),
+                 f"a {kind} registry and its deep copy share mutable containers (a change made through one shows in the other): "
+                 + "; ".join(f"{a} is {b} ({t})" for a, b, t in shared[:4]), {"kind": kind, "shared": shared[:20]})
         R.oracle(cp is not src and cp.Quantity is not src.Quantity and cp.Quantity(1, "m")._REGISTRY is cp
                  and cp.Unit("m")._REGISTRY is cp and cp.Measurement(1.0, 0.1, "m")._REGISTRY is cp,
                  f"deepcopy-registry:{kind}:classes", "objects of the copied registry are not attached to the copy", {"kind": kind})
